@@ -123,7 +123,7 @@ func scalBe32(v *big.Int) []byte {
 
 func genScalarInt(r *Rng) *big.Int {
 	one := big.NewInt(1)
-	switch r.Intn(16) {
+	switch r.Intn(18) {
 	case 0, 1:
 		return big.NewInt(0)
 	case 2:
@@ -140,10 +140,42 @@ func genScalarInt(r *Rng) *big.Int {
 		return new(big.Int).Add(new(big.Int).Rsh(secpN, 1), one)
 	case 9:
 		return new(big.Int).SetUint64(r.U64())
+	case 10, 11, 12:
+		return genStructuredScalar(r)
 	default:
 		v := new(big.Int).SetBytes(r.Bytes(32))
 		return v.Mod(v, secpN)
 	}
+}
+
+// scalars with structure in their 32-byte form: a single bit (2^i, every i in 0..255), a single
+// non-zero byte at any position, a single non-zero 64-bit limb (each of the four), and the
+// bitwise complements of those (reduced modulo n)
+func genStructuredScalar(r *Rng) *big.Int {
+	v := new(big.Int)
+	switch r.Intn(3) {
+	case 0:
+		v.Lsh(big.NewInt(1), uint(r.Intn(256)))
+	case 1:
+		v.Lsh(big.NewInt(int64(1+r.Intn(255))), uint(8*r.Intn(32)))
+	default:
+		k := r.U64()
+		switch r.Intn(4) {
+		case 0:
+			k = 1
+		case 1:
+			k = ^uint64(0)
+		}
+		if k == 0 {
+			k = 1
+		}
+		v.Lsh(new(big.Int).SetUint64(k), uint(64*r.Intn(4)))
+	}
+	if r.Chance(25) {
+		all := new(big.Int).Sub(new(big.Int).Lsh(big.NewInt(1), 256), big.NewInt(1))
+		v.Sub(all, v)
+	}
+	return v.Mod(v, secpN)
 }
 
 // a scalar token: mostly nil or a canonical 32-byte value below n; sometimes n, n+1,
